@@ -999,6 +999,9 @@ class BindTransceiverResp(SmppMessage):
         custom_codecs: Optional[Dict[str, CodecInfo]] = None,
     ) -> SmppMessage:
         # pylint: disable=unused-argument
+        if header.pdu_length <= PDU_HEADER_LENGTH:
+            # SMSC may omit the body if it rejects the bind request (status is not ESME_ROK)
+            return cls(sequence_num=header.sequence_num, command_status=header.command_status)
         index: int = pdu.index(NULL, PDU_HEADER_LENGTH)
         system_id: str = pdu[PDU_HEADER_LENGTH:index].decode('ascii')
         index += 1
